@@ -190,7 +190,7 @@ def main():
         }],
         "checks": checks,
         "not_applicable": na,
-        "notes": "Known findings: KNOWN_FINDINGS.txt (+ findings/<key>.json witnesses, harness/classify.py classifiers). Exit 2 = inconclusive.",
+        "notes": "Known findings: KNOWN_FINDINGS.txt (+ findings/<key>.json witnesses, harness/classify.py classifiers). Exit 2 = inconclusive. Workloads are seeded by VERIF_SEED (default 0); the committed evidence was written with VERIF_SEED=1, and seeds 0-2 of every quick tier and seed 1 of every thorough tier were run on the final tree (DESIGN.md 9). Deliberate breaks: mutants/, seeded/ (three rounds of independently written changes), results in selftest_results.json (tools/selftest.py).",
     }
     (VERIF / "MANIFEST.json").write_text(json.dumps(manifest, indent=1) + "\n")
     try:
